@@ -1,6 +1,7 @@
 CONSTANTS
   Comp = {"a", "b", "c"}
   MaxDepth = 2
+  BatchMembers <- MCBatch
   MaxTape = 60
   Chunks = {"c1", "c2", "c3"}
   AttrVals = {1, 2}
